@@ -7,6 +7,7 @@ import (
 	"os"
 	"strconv"
 	"time"
+	"verif/tool/gosym"
 )
 
 var registry = map[string]func(c *Ctx){}
@@ -42,6 +43,7 @@ func RunCmd(argv []string) int {
 	c := &Ctx{ID: id, Tier: *tier, Seed: seed, Start: time.Now(), Level: "model_checking",
 		Distinct: map[string]bool{}, Extra: map[string]interface{}{}}
 	defer c.cleanup()
+	defer gosym.CloseSolvers()
 	func() {
 		defer func() {
 			if r := recover(); r != nil {
@@ -98,4 +100,3 @@ func ReplayCmd(argv []string) int {
 	}
 	return 0
 }
-
